@@ -208,16 +208,29 @@ def cli_compare_stats_faults(run, tmp, pair, mbm):
             for T in (1, 2):
                 cnt = {'n': 0}
 
+                failed = {'v': False}
+
                 def read(self, bp):
                     i = cnt['n']
                     cnt['n'] += 1
                     if k is not None and i == k:
+                        failed['v'] = True
                         raise sc.InjectedFault('injected read failure')
+                    if k is not None:
+                        # (other blocks are in flight when one fails; none of them touches the datasets after the failure, so that
+                        # a command that returns without waiting for its workers cannot crash this process)
+                        import time
+                        time.sleep(0.003)
+                        if failed['v']:
+                            raise sc.InjectedFault('read after the failure')
                     return orig_read(self, bp)
                 RasterCompare.read = read
+                import threading
+                before = set(threading.enumerate())
                 try:
                     res = CliRunner().invoke(cli.cli, ['compare', str(pair.src_path), str(pair.ref_path), '-t', str(T), '-mbm', repr(mbm),
                                                        '--output', str(tmp / 'c09_cmp.json')])
+                    late = sc.stragglers(before)
                 finally:
                     RasterCompare.read = orig_read
                 run.evaluations += 1
@@ -225,6 +238,8 @@ def cli_compare_stats_faults(run, tmp, pair, mbm):
                 case = dict(i=4 * 10**6 + (k if k is not None else -1) * 10 + T, op='cli compare', fail_block=k, threads=T)
                 if k is not None and cnt['n'] > k and res.exit_code == 0:
                     run.fail(case, f'`homonim compare` exited 0 although the read of block {k} failed', signature=dict(kind='cli-exit-zero', op='compare'))
+                elif late:
+                    run.fail(case, f'`homonim compare` returned while {len(late)} worker thread(s) were still running', signature=dict(kind='not-terminated', op='cli compare'))
                 elif k is None and res.exit_code != 0:
                     run.fail(case, f'fault-free `homonim compare` exited {res.exit_code}', signature=dict(kind='cli', op='compare'))
                 for meth in ('dataset_mask', 'read'):
@@ -308,10 +323,17 @@ def persistent_read_failure(run, tmp, pair, mbm):
                                                block_config=dict(threads=T, max_block_mem=mbm))
                 else:
                     call = lambda: obj.process(threads=T, max_block_mem=mbm)
+                import threading
+                before = set(threading.enumerate())
                 fin, r = sc.run_with_watchdog(call, timeout=60)
+                late = sc.stragglers(before) if fin else []      # (joined before the datasets are closed)
                 obj._src_im = real
         run.evaluations += 1
         run.hist['persistent read failures'] += 1
+        if late:
+            run.fail(case, f'{cls.__name__}.process raised while {len(late)} worker thread(s) of the call were still running',
+                     signature=dict(kind='not-terminated'))
+            continue
         run.nontrivial.add(('unreadable', k))
         if not fin:
             run.fail(case, 'the call hung on an unreadable block', signature=dict(kind='hang'))
@@ -345,9 +367,14 @@ def compare_stats_faults(run, tmp, pair, mbm):
                         cnt['n'] += 1
                         if i == k:
                             raise sc.InjectedFault('injected read failure')
+                        import time
+                        time.sleep(0.003)
                         return orig_read(bp)
                     cmp.read = read
+                    import threading
+                    before = set(threading.enumerate())
                     fin, r = sc.run_with_watchdog(lambda: cmp.process(threads=T, max_block_mem=mbm), timeout=60)
+                    late = sc.stragglers(before) if fin else []
                     cmp.read = orig_read
                     locks = [cmp._src_lock.locked(), cmp._ref_lock.locked()]
                     again = None
@@ -362,6 +389,9 @@ def compare_stats_faults(run, tmp, pair, mbm):
                     run.fail(case, 'compare hung after a failed block read', signature=dict(kind='hang'))
                 elif not isinstance(r, BaseException):
                     run.fail(case, f'compare swallowed the failure of block {k}: returned {str(r)[:80]}', signature=dict(kind='swallowed'))
+                elif late:
+                    run.fail(case, f'compare raised while {len(late)} worker thread(s) of the call were still running (processing had not '
+                             'terminated: they go on reading the images the caller is about to close)', signature=dict(kind='not-terminated'))
                 elif any(locks):
                     run.fail(case, 'compare left a lock held after the failure', signature=dict(kind='lock-held'))
                 elif not cmp.closed:
@@ -398,7 +428,10 @@ def compare_stats_faults(run, tmp, pair, mbm):
                                     return call
                                 return v
                         ps._param_im = P()
+                        import threading
+                        before = set(threading.enumerate())
                         fin, r = sc.run_with_watchdog(lambda: ps.stats(threads=T), timeout=60)
+                        late = sc.stragglers(before) if fin else []
                         ps._param_im = real
                         reached = cnt['n'] > k
                         again = None
@@ -418,6 +451,8 @@ def compare_stats_faults(run, tmp, pair, mbm):
                         return
                     elif not isinstance(r, BaseException):
                         run.fail(case, f'stats swallowed the failure of {meth} call {k}', signature=dict(kind='swallowed'))
+                    elif late:
+                        run.fail(case, f'stats raised while {len(late)} worker thread(s) of the call were still running', signature=dict(kind='not-terminated'))
                     elif not real.closed:
                         run.fail(case, 'stats left the parameter file open', signature=dict(kind='leak-reader'))
                     elif isinstance(again, BaseException):
